@@ -32,7 +32,7 @@ def write_then_forget(ctx: Ctx, chk, loss_only: bool = False) -> None:
             if loss_only:
                 raise
             chk.instance(rule)
-            chk.refute(rule, f"{f.fq}::batched-release", f"the flush hands all buffered commands to the transport together (`{norm(bf.node)[:70]}`) and forgets them only afterwards: when one write fails none is forgotten, although the other writes completed (or still complete) - those commands are written again at the next wake", ctx.loc(f, bf.node))
+            chk.refute(rule, f"{f.fq}::batched-release", f"the flush releases the buffered commands concurrently / as one batch (`{norm(bf.node)[:70]}`): when one write fails the listener is told at once, but the sibling writes are neither stopped nor awaited - commands whose write completed (or still completes) are still parked when the next wake takes its snapshot, and are written again", ctx.loc(f, bf.node))
             continue
         g = fl.cfg
         if not fl.removes and loss_only:
